@@ -10,7 +10,6 @@ theorem known_date : known ⟨.unmarshalDate, .index⟩ = true := by decide
 theorem known_list : known ⟨.unmarshalList, .reflectMakeslice⟩ = true := by decide
 theorem known_readBytes : known ⟨.readBytes, .slice⟩ = true := by decide
 theorem known_tupleIndex : known ⟨.unmarshalTuple, .index⟩ = true := by decide
-theorem known_goType : known ⟨.goType, .reflect⟩ = true := by decide
 theorem known_tupleReflect : known ⟨.unmarshalTuple, .reflect⟩ = true := by decide
 theorem known_udtReflect : known ⟨.unmarshalUDT, .reflect⟩ = true := by decide
 
@@ -148,7 +147,7 @@ theorem goType_safe (fx : Bool) : ∀ t : CT, Safe fx (goType fx t)
       apply safe_bind (goType_safe fx v); intro gv _
       split
       · simp
-      · exact safe_crashOrErr known_goType
+      · exact safe_err
   | .tuple _ => by simp [goType]
   | .udt _ => by simp [goType]
 
